@@ -344,7 +344,7 @@ def r64_65(ctx, rep):
         if o.rule in ('R4.1', 'R4.2') and o.module == 'petl.comparison':
             n68 += 1
             rep.add('R6.8', (o.module, o.qualname), o.construct, o.status, o.message, o.lineno, o.detail)
-    if n68 < 6:
+    if n68 < 3:
         raise AnalysisError('anchor vanished: only %d Comparable obligations' % n68)
     rep.rule('R6.8', 'the merge decides "equal key / left behind / right behind" with <, > and == on Comparable keys: these '
                      'are a strict weak order consistent with == (None equal to None and before everything else) -- C04 R4.1 '
